@@ -57,7 +57,7 @@ def _exc(kind: str):
 
 
 EXC_KINDS = ["value", "group", "conn", "closed", "timeout", "mixed", "conngroup"]
-TCP_POSITIONS = ["parse-error-after-valid", "conn-before", "conn-after", "handle-before-yield", "handle-after-request", "handle-in-except", "disconnect", "reset-after-accept", "reraise-parse-error", "yield-invalid-timeout", "peer-error-after-request"]
+TCP_POSITIONS = ["parse-error-after-valid", "conn-before", "conn-after", "handle-before-yield", "handle-after-request", "handle-in-except", "disconnect", "reset-after-accept", "no-peername", "reraise-parse-error", "yield-invalid-timeout", "peer-error-after-request"]
 UDP_POSITIONS = ["handle-before-yield", "handle-after-request", "handle-in-except", "reraise-parse-error", "yield-invalid-timeout"]
 
 
@@ -177,6 +177,19 @@ def tcp(position: str, K: int, prefix: list = (), path: str = "copy"):
             h_stream = b"x\ny\n"
             tf = MemStreamTransport(be, f_stream, available=0, loop=loop)
             th = MemStreamTransport(be, h_stream, available=0, loop=loop)
+            if position == "no-peername":
+                # the peer vanished before the connection task started: the accepted socket has no peer address any more
+                class NoPeer(MemStreamTransport):
+                    @property
+                    def extra_attributes(self):
+                        from easynetwork.lowlevel.socket import INETSocketAttribute
+
+                        d = dict(MemStreamTransport.extra_attributes.fget(self))
+                        del d[INETSocketAttribute.peername]
+                        return d
+
+                tf = NoPeer(be, f_stream, available=0, loop=loop)
+                H.faulty = tf  # never reaches on_connection: the first client seen by the hooks is the healthy one
             if position == "reset-after-accept":
                 async def reset(*a):
                     raise ConnectionResetError(104, "reset")
@@ -238,6 +251,22 @@ def tcp(position: str, K: int, prefix: list = (), path: str = "copy"):
             th.feed_eof()
             for _ in range(20):
                 loop.step()
+            # every client is gone now: the server must still be serving, and a later client is served
+            if not problems:
+                if main.done():
+                    problems.append("server task stopped once the last client had left: " + (repr(main.exception()) if not main.cancelled() else "cancelled"))
+                else:
+                    tl = MemStreamTransport(be, b"z\n", loop=loop)
+                    be.listeners[0].connect(tl)
+                    for _ in range(20):
+                        loop.step()
+                    if b"".join(tl.sent) != b"z\n":
+                        problems.append(f"a client connecting after the faulty one was not served: {b''.join(tl.sent)!r}")
+                    tl.feed_eof()
+                    for _ in range(10):
+                        loop.step()
+                    if main.done():
+                        problems.append("server task stopped after a later client left")
             main.cancel()
             loop.run_until_idle(60)
             tags = ("fault-with-healthy-traffic-pending",) if overlap else ()
